@@ -17,11 +17,12 @@ V = Path(__file__).resolve().parent.parent
 ap = argparse.ArgumentParser()
 ap.add_argument('dir')
 ap.add_argument('--e2e', action='store_true')
+ap.add_argument('--tag', default='')
 a = ap.parse_args()
 d = Path(a.dir).resolve()
 meta = json.loads((d / 'meta.json').read_text())
 prop = meta['property']
-name = f'{prop}-{d.name}'
+name = f'{prop}-{a.tag}{d.name}'
 wt = Path(f'/tmp/sc_{name}')
 subprocess.run(['git', '-C', '/repo', 'worktree', 'remove', '--force', str(wt)], capture_output=True)
 subprocess.run(['git', '-C', '/repo', 'worktree', 'add', '-f', str(wt), 'HEAD'], check=True, capture_output=True)
@@ -36,6 +37,16 @@ try:
     ran.append(f'demo.py on unchanged worktree: exit {r0}')
     ap_ = subprocess.run(['git', '-C', str(wt), 'apply', str(d / 'patch.diff')], capture_output=True, text=True)
     ran.append(f'git apply patch.diff: exit {ap_.returncode}')
+    if ap_.returncode != 0:
+        ap_ = subprocess.run(['git', '-C', str(wt), 'apply', '-3', str(d / 'patch.diff')], capture_output=True, text=True)
+        conflict = '<<<<<<<' in subprocess.run(['git', '-C', str(wt), 'diff'], capture_output=True, text=True).stdout
+        ran.append(f'git apply -3 patch.diff: exit {ap_.returncode} conflict={conflict}')
+        if conflict:
+            ap_.returncode = 1
+        elif ap_.returncode == 0:
+            # keep the rebased patch
+            rebased = subprocess.run(['git', '-C', str(wt), 'diff', 'HEAD'], capture_output=True, text=True).stdout
+            (d / 'patch.rebased.diff').write_text(rebased)
     if ap_.returncode != 0:
         ok = False
     else:
@@ -67,7 +78,11 @@ for r in ran:
 if ok:
     out = V / 'seeded' / name
     out.mkdir(parents=True, exist_ok=True)
-    shutil.copy(d / 'patch.diff', out / 'patch.diff')
+    if (d / 'patch.rebased.diff').exists():
+        shutil.copy(d / 'patch.diff', out / 'patch.orig.diff')
+        shutil.copy(d / 'patch.rebased.diff', out / 'patch.diff')
+    else:
+        shutil.copy(d / 'patch.diff', out / 'patch.diff')
     shutil.copy(d / 'demo.py', out / 'demo.py')
     m = {'property': prop, 'breaks': meta.get('summary'), 'needs_to_manifest': meta.get('needs_to_manifest'),
          'origin': 'fresh sub-agent given only the property text and a scratch worktree', 'confirmed_by': ran, 'caught_by': None}
